@@ -4,7 +4,7 @@ CONSTANTS
   NTab = 2
   NSid = 8
   Devs = {}
-  Acts = {"ConcatEmpty", "NewVec", "Copy", "Drop", "Write", "NewTable", "SetAttr", "ColView", "DropTable", "ReadFp", "ReadFpT"}
+  Acts = {"WriteRow", "ConcatEmpty", "NewVec", "Copy", "Drop", "Write", "NewTable", "SetAttr", "ColView", "DropTable", "ReadFp", "ReadFpT"}
   Lens = {1, 2}
   Vals = {0, 1}
   NameSet = {"-"}
